@@ -131,7 +131,7 @@ func GenC14(seed uint64, tier string) *Plan {
 		case 4:
 			st.Faults = []Fault{{Seam: "transport", Kind: "stall", Arg: rt.Pick(r, []int{1, 1000, 30000, 3600000})}}
 		case 5: // a member of the multi-status fails
-			st.Faults = []Fault{{Seam: "resp", Kind: rt.Pick(r, []string{"ms-response-status", "ms-propstat-status", "ms-propstat-status"}), At: r.Intn(6), Sel: r.Intn(8),
+			st.Faults = []Fault{{Seam: "resp", Kind: rt.Pick(r, []string{"ms-response-status", "ms-propstat-status", "ms-propstat-status", "ms-response-status", "ms-propstat-status", "ms-no-href", "ms-two-hrefs", "ms-empty", "ms-status-garbage"}), At: r.Intn(6), Sel: r.Intn(8),
 				Arg: rt.Pick(r, []int{403, 404, 404, 423, 424, 500, 507, 102, 301})}}
 			if r.Chance(0.4) {
 				st.Faults[0].Note = "keep-value"
